@@ -54,7 +54,7 @@ def run_impl(case):
                     "key": "connect-failed", "match": {"experiment": "connect"}}
         bus = intr
     d = Signal(name="verif_dummy"); top.d.sync += d.eq(~d)
-    sim = Simulator(top)
+    sim = simutil.simulator(top, case)
     sim.add_clock(1e-6)
     lines = [f"case {n} {dw} {al} " + " ".join(m[0] for m in modes)]
     obs = [f"layout {mm.addr_width} {lay['enable'][0]}-{lay['enable'][1]} {lay['pending'][0]}-{lay['pending'][1]}"]
